@@ -386,3 +386,66 @@ def foreignfile(repo):
         raise AnalysisError(f"only {res.instances} foreign-object diagnostics found")
     res.analysed = ["compiler/front_end/*.py"]
     return res
+
+
+# ---------------------------------------------------------------------------------------------------------
+def copytype(repo, schema=None):
+    """R-COPYTYPE (C18): `target.CopyFrom(source)` between IR nodes copies field by field.  If the schema type of the
+    target position differs from the schema type of the source, the builder first creates the *declared* type and
+    CopyFrom then sets attributes that type does not declare: they live as plain instance attributes, work in memory,
+    and are dropped by the serializer (which writes the declared fields only) — the IR no longer survives JSON.
+    Both sides are typed from ir_data.py by their attribute chains (locals assigned once are expanded); a site is
+    judged only when each side has exactly one possible message type."""
+    res = RuleResult("R-COPYTYPE")
+    schema = schema or Schema(repo)
+    ty = Typer(repo, schema)
+
+    def expand(e, fnode, depth=0):
+        if isinstance(e, ast.Name) and depth < 4:
+            defs = [n for n in walk_no_nested_funcs(fnode) if isinstance(n, ast.Assign)
+                    and any(isinstance(t, ast.Name) and t.id == e.id for t in n.targets)]
+            if len(defs) == 1 and not isinstance(defs[0].targets[0], ast.Tuple):
+                return expand(defs[0].value, fnode, depth + 1)
+            return e
+        if isinstance(e, ast.Attribute):
+            return ast.Attribute(value=expand(e.value, fnode, depth), attr=e.attr, ctx=ast.Load())
+        if isinstance(e, ast.Subscript):
+            return ast.Subscript(value=expand(e.value, fnode, depth), slice=e.slice, ctx=ast.Load())
+        if isinstance(e, ast.Call) and isinstance(e.func, ast.Attribute) and e.func.attr in ("reader", "builder", "copy") and e.args:
+            return ast.Call(func=e.func, args=[expand(e.args[0], fnode, depth)], keywords=[])
+        return e
+
+    def single(e):
+        if isinstance(e, ast.Call) and isinstance(e.func, ast.Attribute) and e.func.attr == "copy" and e.args:
+            e = e.args[0]
+        if isinstance(e, ast.Call) and isinstance(e.func, ast.Attribute) and isinstance(e.func.value, ast.Name) \
+                and e.func.value.id == "ir_data" and e.func.attr in schema.classes:
+            return e.func.attr  # a freshly constructed node
+        ts = ty.types_of(e)
+        if ts and len(ts) == 1:
+            (t, is_list), = ts
+            if not is_list and t in schema.classes:
+                return t
+        return None
+
+    judged = 0
+    for m in repo.compile_path_modules():
+        for f in m.funcs.values():
+            for n in walk_no_nested_funcs(f.node):
+                if isinstance(n, ast.Call) and isinstance(n.func, ast.Attribute) and n.func.attr == "CopyFrom" and len(n.args) == 1:
+                    t = single(expand(n.func.value, f.node))
+                    s_ = single(expand(n.args[0], f.node))
+                    if t is None or s_ is None:
+                        continue
+                    judged += 1
+                    res.instances += 1
+                    if t != s_:
+                        res.add(f"{m.rel}|{f.qualname}|{ast.unparse(n.func.value)}", f"{f.qualname}: `{ast.unparse(n.func.value)}` is declared "
+                                f"{t} in ir_data.py but receives a {s_} (`{ast.unparse(n.args[0])}`) through CopyFrom: the fields {s_} has and "
+                                f"{t} lacks are set as undeclared attributes, which the JSON serializer does not write", m.rel, n.lineno, f.qualname)
+                    elif len(res.samples) < 3:
+                        res.samples.append(f"{f.qualname}: {ast.unparse(n.func.value)} <- {t}")
+    if judged < 7:
+        raise AnalysisError(f"only {judged} CopyFrom sites could be typed on both sides")
+    res.analysed = ["compiler/util/ir_data.py", "compiler/front_end/*.py"]
+    return res
